@@ -1110,7 +1110,7 @@ func Run(seed uint64, tier, work, driver string, replay []string) *common.Result
 	r := rng.New(seed)
 	nPre, nEnc, nBase := 6000, 1500, 900
 	if thorough {
-		nPre, nEnc, nBase = 100000, 25000, 16000
+		nPre, nEnc, nBase = 30000, 8000, 5000
 	}
 	var lines []string
 	if replay != nil {
